@@ -156,9 +156,9 @@ CHECKS = [
   "technique": "deductive verification: exceptional paths preserve the loop invariant; raises-clauses of step/execute; z3 + cvc5"},
  {"property_id": "C14",
   "text": "draw() of 18 of the 19 concrete distribution classes (all but DistNormalTrunc), DistNormal._next_gaussian, the stream "
-          "(re)pointing methods and the constructors of the twelve classes that are not compositions of gammas (Bernoulli, Binomial, "
-          "DiscreteUniform, Constant, Exponential, Gamma, Poisson, Triangular, Uniform, Weibull, Normal, LogNormal: TypeError exactly "
-          "for ill-typed arguments, ValueError exactly outside the documented domain -- NaN included, fix 184bf62 -- and otherwise the "
+          "(re)pointing methods and the constructors of eighteen classes (all but DistNormalTrunc; Geometric / NegBinomial including the "
+          "rejection of p = 1 by log(1 - p); Beta / Erlang / Pearson5 / Pearson6 including the inner gammas built on the same "
+          "stream): TypeError exactly for ill-typed arguments, ValueError exactly outside the documented domain -- NaN included, fix 184bf62 -- and otherwise the "
           "parameter invariant that draw() requires) are verified against contracts over the C12 stream contract (one next_float = "
           "one step of the abstract generator, value in [0,1) including exactly 0): totality (raises nothing: every log/sqrt/pow/"
           "division site is an obligation), support (postcondition), frame = only the stream state (and the normal's own cache) "
@@ -167,8 +167,7 @@ CHECKS = [
           "invariants; re-pointing establishes that every inner distribution draws from the new stream and the cached gaussian is dropped.",
   "design_ref": "DESIGN.md section 6 C14",
   "note": COMMON_NOTE + " 15 obligations are refuted and natively reproduced (uniform exactly 0.0, p = 0): they are listed as "
-          "known findings, not repaired. Not under contract: DistNormalTrunc (accuracy guards of erf_inv), the constructors of "
-          "Beta/Erlang/Pearson5/Pearson6/Geometric/NegBinomial, the Quantity-valued wrappers; infinite parameters are outside the "
+          "known findings, not repaired. Not under contract: DistNormalTrunc (accuracy guards of erf_inv), the Quantity-valued wrappers; infinite parameters are outside the "
           "preconditions; float overflow for absurd parameters (Weibull alpha = 1e-300) is not modelled. math functions are axiomatised (domain/sign/monotonicity), values over the reals.",
   "technique": "deductive verification: totality/support/frame contracts per sampling algorithm over an abstract stream, loop invariants; z3"},
  {"property_id": "C07",
